@@ -266,6 +266,26 @@ Theorem C15_tabor_compile_refuted : exists t us st tr st2 st' ms,
 Proof. exact tabor_compile_update_needs_sharing. Qed.
 Print Assumptions C15_tabor_compile_refuted.
 
+(* SINGLE sequence mode, unconditionally (no hypothesis on decisions, sharing or warnings; counts_ok is the model's
+   bound on counts): the root decision never depends on a count an update can change and there is one table, so
+   recompiling the updated program succeeds with the same decisions and yields exactly the updated tables *)
+Theorem C15_tabor_single_mode : forall us f mn mx t st w tr st' ms,
+  tabor_compile f (Some MSingle) mn mx t = Ok (st, w, tr) ->
+  counts_ok (update us t) = true ->
+  update_tabor us st = (st', ms) ->
+  exists st2, tabor_compile f (Some MSingle) mn mx (update us t) = Ok (st2, false, tr) /\
+              tab_view st' = tab_view st2 /\ w = false.
+Proof. exact tabor_single_update. Qed.
+Print Assumptions C15_tabor_single_mode.
+
+Theorem C15_tabor_single_mode_nonvacuous : exists t st w tr st' ms,
+  create_program single_pt [(1%N, 2)] [1%N] = Ok (Some t) /\
+  tabor_compile 100 (Some MSingle) 1 8 (cleanup t) = Ok (st, w, tr) /\
+  counts_ok (update [(1%N, 0)] (cleanup t)) = true /\
+  update_tabor [(1%N, 0)] st = (st', ms) /\ length ms = 2%nat.
+Proof. exact tabor_single_update_nonvacuous. Qed.
+Print Assumptions C15_tabor_single_mode_nonvacuous.
+
 (* an input-level sufficient condition for "the compilation of the updated tables takes the same decisions": when
    every sequence table already has a valid length, prepare_program_for_advanced_sequence_mode takes no
    count-dependent decision (all DSkip) for the tables and for every update of them *)
